@@ -784,7 +784,7 @@ func (c *Ctx) c04OpenFindings() {
 		args      []goat.Value
 		want      string
 	}{
-		{"float-constant-operand", "func f(i int) int { return i / 2.0 }", "f", []goat.Value{mkArg("int32", 7)}, "3:int32"},
+		{"float-constant-operand", "func f(i int) float64 { x := i / 2.0; return float64(x) }", "f", []goat.Value{mkArg("int32", 7)}, "3:float64"},
 		{"constant-shift-in-expression", "func f(x int32, s int32) int32 { return x + 1<<s>>s }", "f", []goat.Value{mkArg("int32", 5), mkArg("int32", 31)}, "4:int32"},
 	} {
 		got := newScript(w.src).call(w.fn, w.args...)
